@@ -287,7 +287,8 @@ class Module(object):
             self.src = f.read()
         self.lines = self.src.split("\n")
         self.tree = ast.parse(self.src, path)
-        from .inline import inline_module
+        from .inline import inline_module, normalize_module
+        normalize_module(self.tree)
         self.inlined = inline_module(self.tree, name)  # {class name or None: helper names analysed at their call sites}
         for parent in ast.walk(self.tree):
             for child in ast.iter_child_nodes(parent):
